@@ -149,6 +149,15 @@ func (c *compiler) evaluateAssertions() error {
 	return nil
 }
 
+// getAddressMode decodes an addressing mode character under the rule set
+// the compiler was configured with.
+func (c *compiler) getAddressMode(modeStr string) (AddressMode, error) {
+	if c.config.Mode == ICWS88 {
+		return getAddressMode88(modeStr)
+	}
+	return getAddressMode(modeStr)
+}
+
 func (c *compiler) assembleLine(in sourceLine) (Instruction, error) {
 	opLower := strings.ToLower(in.op)
 	var aMode, bMode AddressMode
@@ -159,7 +168,7 @@ func (c *compiler) assembleLine(in sourceLine) (Instruction, error) {
 			aMode = DIRECT
 		}
 	} else {
-		mode, err := getAddressMode(in.amode)
+		mode, err := c.getAddressMode(in.amode)
 		if err != nil {
 			return Instruction{}, fmt.Errorf("invalid amode: '%s'", in.amode)
 		}
@@ -172,7 +181,7 @@ func (c *compiler) assembleLine(in sourceLine) (Instruction, error) {
 			bMode = DIRECT
 		}
 	} else {
-		mode, err := getAddressMode(in.bmode)
+		mode, err := c.getAddressMode(in.bmode)
 		if err != nil {
 			return Instruction{}, fmt.Errorf("invalid bmode: '%s'", in.bmode)
 		}
